@@ -3,6 +3,7 @@ package wal
 import (
 	"bufio"
 	"encoding/binary"
+	"errors"
 	"fmt"
 	"hash/crc32"
 	"io"
@@ -293,6 +294,15 @@ func ReplayWALFile(path string, handler EntryHandler) (*RecoveryStats, error) {
 		if err != nil {
 			if err == io.EOF {
 				// Reached the end of the file
+				break
+			}
+
+			// A record that ends before its header or payload is complete, or
+			// a fragmented entry without its last fragment, can only be the
+			// torn tail of a log that was being written when the process
+			// stopped: everything before it is intact, so this is the end of
+			// the log, not a failure.
+			if errors.Is(err, io.ErrUnexpectedEOF) || strings.Contains(err.Error(), "unexpected EOF") {
 				break
 			}
 
